@@ -322,7 +322,7 @@ func (a *attacker) randomDyn() []byte {
 
 var c12moves = []string{"dup-registerEvent", "conflicting-unregister", "foreign-ids", "wrong-object-ids", "garbage-property", "mutated-directory-call",
 	"unknown-targets", "all-message-types", "big-payload", "flood-drain-late", "flood-abrupt-close", "cut-mid-message", "reauthenticate-racing-calls",
-	"documented-removal", "mutated-arguments", "subscribe-then-vanish", "hostile-signatures", "garbage-bytes", "stats-and-trace", "terminate-under-flood"}
+	"documented-removal", "mutated-arguments", "subscribe-then-vanish", "hostile-signatures", "garbage-bytes", "stats-and-trace", "terminate-under-flood", "post-flood-subscriptions"}
 
 func (a *attacker) move(name string) {
 	r := a.rng
@@ -560,6 +560,44 @@ func (a *attacker) move(name string) {
 			<-done
 		}
 		a.logf("terminate(%d) in the middle of %d pipelined calls to %d/%d", o, n, s, o)
+	case "post-flood-subscriptions":
+		// one-way (Post) registrations / unregistrations / calls pipelined in one write to one object,
+		// the client keeps reading whatever comes back
+		s, o := a.target()
+		if r.Intn(3) == 0 {
+			s, o = 1, 1 // the service directory itself
+		}
+		if !a.connect() {
+			return
+		}
+		var buf bytes.Buffer
+		n := 100 + r.Intn(3000)
+		for k := 0; k < n; k++ {
+			a.hid++
+			typ := uint8(qnet.Post)
+			if r.Intn(10) == 0 {
+				typ = qnet.Call
+			}
+			act, pl := uint32(0), eventArgs(o, tick, a.hid)
+			switch r.Intn(8) {
+			case 0:
+				act, pl = 1, eventArgs(o, tick, a.hid-1)
+			case 1:
+				act, pl = 2, u32(o)
+			}
+			buf.Write(rc.Frame(rc.Header{Magic: rc.Magic, ID: a.conn.id(), Type: typ, Service: s, Object: o, Action: act}, pl))
+		}
+		conn := a.conn
+		done := make(chan struct{})
+		go func() { conn.sendBytes(buf.Bytes()); close(done) }()
+		a.drain(time.Duration(100+r.Intn(300)) * time.Millisecond)
+		select {
+		case <-done:
+		case <-time.After(2 * time.Second):
+			a.drop()
+			<-done
+		}
+		a.logf("%d pipelined one-way registerEvent / unregisterEvent / metaObject messages to %d/%d", n, s, o)
 	case "stats-and-trace":
 		// the generic statistics / tracing actions of every object (80-85), then traffic that is
 		// accounted and traced: known, unknown and failing actions, and a subscription to the trace signal
@@ -807,7 +845,7 @@ func (r *rawConn) callNoDeadline(service, obj, action uint32, payload []byte, _ 
 }
 
 func c12(c *wk.Ctx) {
-	c.Note("rule", "the server (directory + 2 Probe services x 3 objects, freshly generated stubs) runs in a child process of the worker; each case is a PRNG sequence of 2-7 moves by one authenticated hostile client from a grammar of 20 move kinds (incl. the generic statistics / tracing actions and a documented removal in the middle of a burst) (duplicate / conflicting / foreign registerEvent and unregisterEvent, wrong object ids, random dynamic values at property/setProperty, directory calls with mutated ServiceInfo, unknown actions/objects/services, all eight message types, payloads up to the limit, floods of 2-10k calls drained late or cut by an abrupt close, disconnects mid-header/mid-payload, authenticate frames racing calls, hostile length fields and signatures, the documented removals terminate()/unregisterService(), random bytes). After each sequence a fresh connection authenticates, lists the directory and calls work() on every object the sequence did not legitimately remove. Oracle: the child is alive (exit or fatal error = violation with its stderr), every probe returns f(token); a probe that does not return is decided by the child's own quiescence detector (blocked forever = violation), a CPU / memory budget read from /proc, or a watchdog (inconclusive). Race reports of the child are violations. Distinct non-trivial = distinct move sequences after which at least 4 objects were probed.")
+	c.Note("rule", "the server (directory + 2 Probe services x 3 objects, freshly generated stubs) runs in a child process of the worker; each case is a PRNG sequence of 2-7 moves by one authenticated hostile client from a grammar of 21 move kinds (incl. the generic statistics / tracing actions, a documented removal in the middle of a burst and a burst of one-way subscriptions) (duplicate / conflicting / foreign registerEvent and unregisterEvent, wrong object ids, random dynamic values at property/setProperty, directory calls with mutated ServiceInfo, unknown actions/objects/services, all eight message types, payloads up to the limit, floods of 2-10k calls drained late or cut by an abrupt close, disconnects mid-header/mid-payload, authenticate frames racing calls, hostile length fields and signatures, the documented removals terminate()/unregisterService(), random bytes). After each sequence a fresh connection authenticates, lists the directory and calls work() on every object the sequence did not legitimately remove. Oracle: the child is alive (exit or fatal error = violation with its stderr), every probe returns f(token); a probe that does not return is decided by the child's own quiescence detector (blocked forever = violation), a CPU / memory budget read from /proc, or a watchdog (inconclusive). Race reports of the child are violations. Distinct non-trivial = distinct move sequences after which at least 4 objects were probed.")
 	var ch *child
 	defer func() {
 		if ch != nil {
